@@ -192,6 +192,14 @@ class World:
             elif k == 'sleep':
                 await asyncio.sleep(op[1])
                 self.rec('slept', who, op[1])
+            elif k == 'guarded_pause':  # ('guarded_pause', d): wait on the environment; whatever ends the wait, clean-up takes d seconds (an async finally)
+                try:
+                    await self.loop.pause(who)
+                    self.rec('resumed', who)
+                finally:
+                    self.rec('cleanup-begin', who)
+                    await asyncio.sleep(op[1])
+                    self.rec('cleanup-end', who)
             elif k == 'yield':
                 await asyncio.sleep(0)
             elif k == 'disp':
